@@ -17,7 +17,8 @@ class C12(Prop):
             "NRB/ISB/custom/unknown blocks at random positions, legacy pcap us/ns magic in both byte orders (with -l); "
             "oracle: output bytes identical to the baseline's; one evaluation = one export; non-trivial = the variant's "
             "container bytes differ and the baseline exported packets; distinct = (scenario, variant)")
-    reach = ["be", "dec3", "dec9", "bin", "tsoffset", "tsoffset_option_before_tsresol", "blocks", "opts", "pcap_us_le", "pcap_us_be", "pcap_ns_le",
+    reach = ["be", "dec3", "dec9", "bin", "tsoffset", "tsoffset_option_before_tsresol", "first_interface_not_ethernet",
+             "baseline_after_variant_in_one_process", "blocks", "opts", "pcap_us_le", "pcap_us_be", "pcap_ns_le",
              "pcap_ns_be", "quic_world"]
 
     def plan(self, tier):
@@ -55,6 +56,8 @@ class C12(Prop):
             ["pcap_ns_be", {"fmt": "pcap", "ns": True, "be": True}],
             ["mix", {"be": V.chance(50), "tsresol": ["dec", V.choice([6, 7, 8, 9])], "blocks": V.bits(30),
                      "tsoffset": offs(0, -5, 7200), "epb_opts": V.chance(50), "tsoffset_first": V.chance(50)}],
+            ["first_interface_not_ethernet", dict({"first_idb_linktype": V.choice([0, 101, 113, 228, 127]), "be": V.chance(30)},
+                                                  **V.choice([{}, {"tsresol": ["dec", 6]}, {"tsresol": ["dec", 9]}]))],
             ["tsoffset_option_before_tsresol", {"be": V.chance(30), "tsresol": V.choice([["dec", 9], ["dec", 7], ["bin", 24]]),
                                                 "tsoffset": offs(-1, 3600, -86400, 1000000000), "tsoffset_first": True}],
         ]
@@ -130,6 +133,30 @@ class C12(Prop):
                 except Exception:
                     pass
                 out.violate("variant-output-identical-to-baseline", cls, tag + " " + d, focus=[name, cont])
+        # the same process exported a capture with other interface options before: nothing of them may stick
+        done = 0
+        for name, cont in spec.get("variants", []):
+            if done >= 2 or lane.expired():
+                break
+            if cont.get("fmt") == "pcap" or not (cont.get("tsresol") or cont.get("tsoffset")):
+                continue
+            done += 1
+            s2 = self.with_container(spec, cont)
+            ex = world.expand(s2)
+            rr = lane.sut(spec.get("hashseed", 0)).run(ex["capture"], ex["keylog"], ex["argv"],
+                                                       extra_runs=[dict(capture=ex0["capture"], keylog=ex0["keylog"],
+                                                                        argv_opts=ex0["argv"])])
+            out.exports += 2
+            out.count("reach:baseline_after_variant_in_one_process")
+            r2 = rr[1]
+            fc = failure_class(r2)
+            if fc:
+                out.violate("variant-run-does-not-fail", "baseline-after-%s:%s" % (name, fc), failure_detail(r2),
+                            focus=[name, cont])
+            elif hashlib.sha256(r2.out).hexdigest() != h0:
+                out.violate("variant-output-identical-to-baseline", "differs:baseline-after-variant-in-one-process",
+                            "baseline container exported after variant %s %s in the same process" % (name, cont),
+                            focus=[name, cont])
         return out
 
 
